@@ -1127,6 +1127,38 @@ Proof.
   apply (H i eid k tok j col Hi Hk Hj Hc). lia.
 Qed.
 
+(* ---- the terminal-condition map of the stacked-time Jacobian --------------------------------------------- *)
+Lemma terminal_map_from_In : forall terminit spots j0 i j,
+  In (i, j) (terminal_map_from terminit spots j0) <->
+  exists k t, nth_error terminit k = Some t /\ j = j0 + k /\ col_of spots t = Some i.
+Proof.
+  induction terminit as [ | x r IH]; intros spots j0 i j; simpl.
+  - split; [ contradiction | intros (k & t & H & _) ]. destruct k; discriminate.
+  - destruct (col_of spots x) as [cx | ] eqn:E; simpl; rewrite IH; split.
+    + intros [H | (k & t & Hk & -> & Hc)].
+      * inversion H; subst. exists 0, x. simpl. repeat split; auto; lia.
+      * exists (S k), t. simpl. repeat split; auto; lia.
+    + intros (k & t & Hk & -> & Hc). destruct k as [ | k]; simpl in Hk.
+      * inversion Hk; subst t. rewrite E in Hc. inversion Hc; subst. left. now rewrite Nat.add_0_r.
+      * right. exists k, t. repeat split; auto; lia.
+    + intros (k & t & Hk & -> & Hc). exists (S k), t. simpl. repeat split; auto; lia.
+    + intros (k & t & Hk & -> & Hc). destruct k as [ | k]; simpl in Hk.
+      * inversion Hk; subst t. congruence.
+      * exists k, t. repeat split; auto; lia.
+Qed.
+
+(* column j of the terminal transition matrices is added into column i of the Jacobian exactly when the j-th
+   terminal-initial-condition spot is the unknown of column i; spots that are not unknowns contribute nothing and do
+   not shift the columns of the spots after them *)
+Theorem terminal_map_pairs : forall terminit spots i j,
+  In (i, j) (terminal_jacobian_map terminit spots) <->
+  exists t, nth_error terminit j = Some t /\ col_of (some_columns spots) t = Some i.
+Proof.
+  intros terminit spots i j. unfold terminal_jacobian_map. rewrite terminal_map_from_In. split.
+  - intros (k & t & Hk & -> & Hc). exists t. simpl. auto.
+  - intros (t & Hj & Hc). exists j, t. simpl. auto.
+Qed.
+
 (* ------------------------------------------------------------------------------ *)
 (* entries of the Jacobians are the partial derivatives                            *)
 (* ------------------------------------------------------------------------------ *)
